@@ -401,13 +401,14 @@ def train_loop_worker(job):
     train_hist = [h[0] for h in hist]
     val_hist = [h[1] for h in hist]
 
-    def get_batches(images, batch_size, key=None, devices=None):
+    def get_batches(multi_images, batch_size, rand_key=None, devices=None):  # parameter names as in the repository (keyword calls)
         log["epochs"] += 1
         if log["epochs"] > len(hist):
             raise _HistoryExhausted()
         return [["xb0", "xb1"], ["yb0", "yb1"]]
 
-    def train_step(map_and_loss, model, optim, opt_state, x, y, aux=None):
+    def train_step(map_and_loss, model, optim, opt_state, x, y, aux_data=None):
+        aux = aux_data
         log["steps"] += 1
         e = log["epochs"]
         return "model@%d.%d" % (e, log["steps"]), opt_state, A.Arr((), [train_hist[e - 1]], "float"), aux
